@@ -7,6 +7,8 @@ import Mathlib.Tactic.Ring
 import Mathlib.Tactic.Linarith
 import Mathlib.Tactic.FieldSimp
 import Mathlib.Tactic.Positivity
+import Mathlib.Algebra.BigOperators.Intervals
+import Mathlib.Algebra.BigOperators.Ring.Finset
 /-! # C17 — resampling a plane changes its sampling, not its optics
 
 **Partial**: the bookkeeping (pixel scale, shape, extent, identity at scale 1, binary mask, original untouched) is proved;
@@ -131,6 +133,44 @@ theorem rescale_one_is_identity (interp interp1 : (Int → Int → K) → K → 
   · simp only [h0, if_false]
     have : ¬ ((1 : K) < eps) := not_lt.mpr he
     simp [this]
+
+/-- the exact part of the power clause: a constant amplitude `a` on `n₀ × n₁` samples, rescaled by `s` with any interpolator that
+reproduces constants, becomes `a/s` on `⌈n₀s⌉ × ⌈n₁s⌉` samples (`amplitudeFactor`); its power `Σ (a/s)²` is at least the original
+`n₀n₁a²` and exceeds it by less than the one-sample rim: `< (n₀ + 1/s)(n₁ + 1/s)a²`. (Dividing by the realised size ratio instead of
+`s` — or not dividing at all — violates this for non-integer `n·s`.) -/
+theorem constant_aperture_power (n0 n1 : Nat) (a s : K) (hs : 0 < s) :
+    let S0 := (outShape Int.ceil (fun k => (k : K)) (n0 : Int) s).toNat
+    let S1 := (outShape Int.ceil (fun k => (k : K)) (n1 : Int) s).toNat
+    let P' := ∑ _i ∈ Finset.range S0, ∑ _j ∈ Finset.range S1, (a * amplitudeFactor 2 s) ^ 2
+    (n0 : K) * n1 * a ^ 2 ≤ P' ∧ P' ≤ ((n0 : K) + 1 / s) * ((n1 : K) + 1 / s) * a ^ 2 := by
+  intro S0 S1 P'
+  have key : ∀ n : Nat, (n : K) ≤ ((outShape Int.ceil (fun k => (k : K)) (n : Int) s).toNat : K) / s ∧
+      ((outShape Int.ceil (fun k => (k : K)) (n : Int) s).toNat : K) / s ≤ (n : K) + 1 / s := by
+    intro n
+    obtain ⟨_, h1, h2⟩ := rescale_shape (K := K) (n : Int) s
+    have hnn : (0 : Int) ≤ outShape Int.ceil (fun k => (k : K)) (n : Int) s := by
+      unfold outShape; apply Int.ceil_nonneg; push_cast; positivity
+    have hc : ((outShape Int.ceil (fun k => (k : K)) (n : Int) s).toNat : K) = ((outShape Int.ceil (fun k => (k : K)) (n : Int) s : Int) : K) := by
+      rw [← Int.cast_natCast, Int.toNat_of_nonneg hnn]
+    rw [hc]
+    push_cast at h1 h2
+    constructor
+    · rw [le_div_iff₀ hs]; exact h1
+    · rw [div_le_iff₀ hs]; have : ((n : K) + 1 / s) * s = n * s + 1 := by field_simp
+      rw [this]; exact le_of_lt h2
+  have hP : P' = ((S0 : K) / s) * ((S1 : K) / s) * a ^ 2 := by
+    simp only [P', Finset.sum_const, Finset.card_range, nsmul_eq_mul, amplitudeFactor]
+    norm_num
+    field_simp
+  obtain ⟨a0, b0⟩ := key n0
+  obtain ⟨a1, b1⟩ := key n1
+  have hn0 : (0 : K) ≤ n0 := Nat.cast_nonneg _
+  have hn1 : (0 : K) ≤ n1 := Nat.cast_nonneg _
+  have ha2 : 0 ≤ a ^ 2 := sq_nonneg a
+  rw [hP]
+  constructor
+  · exact mul_le_mul_of_nonneg_right (mul_le_mul a0 a1 hn1 (le_trans hn0 a0)) ha2
+  · exact mul_le_mul_of_nonneg_right (mul_le_mul b0 b1 (le_trans hn1 a1) (le_trans (le_trans hn0 a0) b0)) ha2
 
 /-- the mask stays binary and a segmented mask keeps its segments -/
 theorem mask_binary_segments_kept (segs : List (Int → Int → K)) (i j : Int) :
